@@ -1,12 +1,22 @@
-"""Facts for C15 (back-pressure): decision tables of the real pause_writing / resume_writing /
-connection_lost on both transports (run on a stub asyncio transport), the shape of write()
-(does it re-check the event in a loop?  does it frame once and hand the frame to the asyncio
-transport in exactly one call, outside any loop, with every suspension point before that call?),
-the shape of `_send_message` (write under timeout_after(max_send_delay); TaskTimeout -> abort,
-unconditionally, then re-raise), what abort() does to the asyncio transport, max_send_delay,
-fingerprints."""
-import ast
+"""Facts for C15 (back-pressure).  Everything here is BEHAVIOURAL: the real functions of the
+current tree are run on recording stubs, so helper extraction, aliases, early returns, renamed
+locals, the function form vs the context-manager form of timeout_after ... leave the generated
+Facts/C15.lean byte-identical, and a change of behaviour changes it.  (`ast` is used for the
+fingerprints only, in tools/facts/common.py.)
+
+* decision tables of pause_writing / resume_writing / connection_lost, abort(), close(),
+  is_closing() of both transports on a stub asyncio transport;
+* write-path traces: the real `write()` coroutine of both transports driven step by step
+  (`coro.send(None)`) through six scenarios; per step: which of frame / transport.write (of
+  exactly the framed bytes or of something else) / pause_reading / resume_reading happened before
+  the next suspension point, and whether the coroutine finished;
+* stall rows: the real `_send_message` on the real transport protocol over the fake asyncio
+  transport and the virtual loop, blocked on a full buffer, with and without a graceful close
+  pending: was the asyncio transport aborted, when, what came out of the sender;
+* the same deadline for every kind of sender (notification, request, response, batch);
+* max_send_delay, fingerprints."""
 import asyncio
+from asyncio import events as _events
 
 from . import common
 
@@ -85,102 +95,229 @@ def table(mod, clsname, kind):
     return rows
 
 
-def write_shape(tree, clsname):
-    node = common.find(tree, f'{clsname}.write')
-    loops, awaits_before_write = False, 0
-    if node is not None:
-        for n in ast.walk(node):
-            if isinstance(n, ast.While) and any(isinstance(x, ast.Await) for x in ast.walk(n)):
-                loops = True
-    return loops
+# ---- write-path traces ------------------------------------------------------------------------
+
+BIG = b'0:' + b'x' * 200000        # larger than any plausible piece size of a chunking write()
+
+SCENARIOS = [
+    # name, ops.  start/step = one step of the writer's coroutine (recorded); the others are what
+    # the environment does in between (their own calls are not recorded)
+    ('room', ['start']),
+    ('wait_then_room', ['pause', 'start', 'resume', 'step']),
+    ('repaused_before_the_woken_writer_runs', ['pause', 'start', 'resume', 'pause', 'step',
+                                               'resume', 'step']),
+    ('closing', ['closing', 'start']),
+    ('lost_while_waiting', ['pause', 'start', 'lose', 'step']),
+    ('transport_pauses_inside_the_write', ['pause_in_write', 'start']),
+]
 
 
-_SUSPEND = (ast.Await, ast.AsyncFor, ast.AsyncWith, ast.Yield, ast.YieldFrom)
-_LOOPS = (ast.For, ast.While, ast.AsyncFor, ast.ListComp, ast.SetComp, ast.DictComp,
-          ast.GeneratorExp)
+class _RecFramer(_Framer):
+    def __init__(self, log):
+        super().__init__()
+        self.log = log
+        self.framed = []
+
+    def frame(self, m):
+        self.log.append('frame')
+        out = bytes(m) + b'\n'
+        self.framed.append(out)
+        return out
 
 
-def _is_self_attr(n, attr):
-    return (isinstance(n, ast.Attribute) and n.attr == attr and isinstance(n.value, ast.Name)
-            and n.value.id == 'self')
+class _RecStub(_Stub):
+    def __init__(self, log, framer):
+        super().__init__(False)
+        self.log = log
+        self.framer = framer
+        self.proto = None
+        self.pause_in_write = False
+
+    def pause_reading(self):
+        self.log.append('pause_reading')
+
+    def resume_reading(self):
+        self.log.append('resume_reading')
+
+    def write(self, data):
+        whole = any(bytes(data) == f for f in self.framer.framed)
+        self.log.append('write_framed' if whole else 'write_other')
+        if self.pause_in_write:
+            self.pause_in_write = False
+            self.proto.pause_writing()
 
 
-def _pos(n):
-    return (n.lineno, n.col_offset)
+def write_traces(mod, clsname, kind):
+    """{scenario: [[calls of the step, finished], ...]}"""
+    out = {}
+    for name, ops in SCENARIOS:
+        loop = asyncio.new_event_loop()
+        asyncio.set_event_loop(loop)
+        _events._set_running_loop(loop)      # Event.wait() needs a "running" loop for its future
+        coro = None
+        try:
+            log = []
+            framer = _RecFramer(log)
+            proto = getattr(mod, clsname)(lambda t: None, framer, kind)
+            stub = _RecStub(log, framer)
+            stub.proto = proto
+            proto._asyncio_transport = stub
+            steps, finished = [], False
+            for op in ops:
+                if op == 'pause':
+                    proto.pause_writing()
+                elif op == 'resume':
+                    proto.resume_writing()
+                elif op == 'closing':
+                    stub.closing = True
+                elif op == 'lose':
+                    stub.closing = True
+                    proto.connection_lost(None)
+                elif op == 'pause_in_write':
+                    stub.pause_in_write = True
+                else:
+                    if op == 'start':
+                        coro = proto.write(BIG)
+                    del log[:]
+                    if finished:
+                        steps.append([['already_finished'], True])
+                        continue
+                    try:
+                        coro.send(None)
+                    except StopIteration:
+                        finished = True
+                    except BaseException as e:      # noqa
+                        log.append('raised_' + type(e).__name__)
+                        finished = True
+                    steps.append([list(log), finished])
+            out[name] = steps
+        finally:
+            if coro is not None:
+                try:
+                    coro.close()
+                except BaseException:   # noqa
+                    pass
+            _events._set_running_loop(None)
+            asyncio.set_event_loop(None)
+            loop.close()
+    return out
 
 
-def write_atomic(tree, clsname):
-    """(frame_once, write_atomic) for `<cls>.write`:
-    frame_once   - exactly one call `<anything>.frame(...)`, not inside a loop;
-    write_atomic - exactly one call `<asyncio transport>.write(...)` (the receiver is
-                   `self._asyncio_transport` or a local name assigned from it), not inside a loop,
-                   and every suspension point of the function (await / async with / async for /
-                   yield) comes before it - so between the last wait on `_can_send` and the
-                   hand-over of the whole frame nothing else can run."""
-    node = common.find(tree, f'{clsname}.write')
-    if node is None:
-        return False, False
-    aliases = set()
-    for n in ast.walk(node):
-        if isinstance(n, ast.Assign) and _is_self_attr(n.value, '_asyncio_transport'):
-            aliases |= {t.id for t in n.targets if isinstance(t, ast.Name)}
+# ---- stall rows and sender kinds (real session + transport protocol, fake asyncio transport) ---
 
-    def is_transport(n):
-        return _is_self_attr(n, '_asyncio_transport') or (isinstance(n, ast.Name) and n.id in aliases)
-
-    in_loop = {}
-
-    def visit(n, looped):
-        in_loop[id(n)] = looped
-        for c in ast.iter_child_nodes(n):
-            visit(c, looped or isinstance(n, _LOOPS))
-
-    visit(node, False)
-    calls = [n for n in ast.walk(node) if isinstance(n, ast.Call) and isinstance(n.func, ast.Attribute)]
-    frames = [n for n in calls if n.func.attr == 'frame']
-    writes = [n for n in calls if n.func.attr == 'write' and is_transport(n.func.value)]
-    suspends = [n for n in ast.walk(node) if isinstance(n, _SUSPEND)]
-    frame_once = len(frames) == 1 and not in_loop[id(frames[0])]
-    atomic = (len(writes) == 1 and not in_loop[id(writes[0])]
-              and all(_pos(s) < _pos(writes[0]) for s in suspends))
-    return frame_once, atomic
+STALL_DELAY = 3
 
 
-def send_shape(tree):
-    """(wraps, aborts) for SessionBase._send_message:
-    wraps  - `await self.transport.write(..)` sits inside `async with timeout_after(
-             self.max_send_delay)` inside a try;
-    aborts - that try has a handler for TaskTimeout whose body, at its top level (not under any
-             condition), awaits `self.abort()` and ends with a bare `raise`."""
-    node = common.find(tree, 'SessionBase._send_message')
-    wraps = aborts = False
-    if node is None:
-        return wraps, aborts
-    for tr in [n for n in ast.walk(node) if isinstance(n, ast.Try)]:
-        for w in [n for b in tr.body for n in ast.walk(b) if isinstance(n, ast.AsyncWith)]:
-            ok_ctx = any(isinstance(i.context_expr, ast.Call)
-                         and getattr(i.context_expr.func, 'id', None) == 'timeout_after'
-                         and len(i.context_expr.args) == 1
-                         and _is_self_attr(i.context_expr.args[0], 'max_send_delay')
-                         for i in w.items)
-            ok_body = any(isinstance(n, ast.Await) and isinstance(n.value, ast.Call)
-                          and isinstance(n.value.func, ast.Attribute) and n.value.func.attr == 'write'
-                          and _is_self_attr(n.value.func.value, 'transport')
-                          for b in w.body for n in ast.walk(b))
-            if not (ok_ctx and ok_body):
-                continue
-            wraps = True
-            for h in tr.handlers:
-                names = [h.type] if not isinstance(h.type, ast.Tuple) else list(h.type.elts)
-                if not any(isinstance(x, ast.Name) and x.id == 'TaskTimeout' for x in names):
-                    continue
-                calls_abort = any(
-                    isinstance(st, ast.Expr) and isinstance(st.value, ast.Await)
-                    and isinstance(st.value.value, ast.Call)
-                    and _is_self_attr(st.value.value.func, 'abort') for st in h.body)
-                reraises = bool(h.body) and isinstance(h.body[-1], ast.Raise) and h.body[-1].exc is None
-                aborts = calls_abort and reraises
-    return wraps, aborts
+def _world(repo, kind, handler=False):
+    from harness import vloop
+    from harness import fake_transport as FT
+    mods = FT.import_all(repo)
+    loop = vloop.VLoop()
+    asyncio.set_event_loop(loop)
+    # a session task that dies with the TaskTimeout of its send is expected here, not news
+    loop.set_exception_handler(lambda _loop, _context: None)
+    sess = mods['session']
+
+    class S(sess.RPCSession):
+        max_send_delay = STALL_DELAY
+
+        async def handle_request(self, request):
+            return 1
+
+    proto, tr, session = FT.make(mods, S, transport=kind, framer=mods['framing'].NewlineFramer())
+    tr.hold = True
+    saved = sess.time
+    sess.time = FT.TimeShim(loop)
+
+    def finish():
+        sess.time = saved
+        try:
+            for _ in range(4):
+                pending = [t for t in asyncio.all_tasks(loop) if not t.done()]
+                if not pending:
+                    break
+                for t in pending:
+                    t.cancel()
+                loop.run_until_complete(asyncio.gather(*pending, return_exceptions=True))
+        except BaseException:   # noqa
+            pass
+        asyncio.set_event_loop(None)
+        loop.close()
+
+    return loop, tr, session, finish
+
+
+def _run_sender(loop, tr, make_sender, before=None, after_block=None):
+    """pause the transport, start the sender, let virtual time pass; -> observations"""
+    async def main():
+        await asyncio.sleep(0)
+        if before:
+            await before()
+        tr.env_pause()
+        t0 = loop.time()
+        task = loop.create_task(make_sender())
+        await asyncio.sleep(0)
+        await asyncio.sleep(0)
+        blocked = not task.done()
+        if after_block:
+            after_block()
+        pre = (tr.is_closing(), tr.lost_delivered)
+        # well beyond the delay; a sender that is never released is cancelled here
+        await asyncio.sleep(STALL_DELAY * 4)
+        if not task.done():
+            task.cancel()
+        try:
+            await task
+            exc = 'returned'
+        except BaseException as e:      # noqa
+            exc = type(e).__name__
+        aborts = [r[0] - t0 for r in tr.log if r[1] == 'abort']
+        return {'blocked': blocked, 'closing_before': pre[0], 'lost_before': pre[1],
+                'aborts_at': aborts, 'outcome': exc, 'lost_after': tr.lost_delivered}
+    return loop.run_until_complete(main())
+
+
+def stall_rows(repo, kind):
+    """[not closing, graceful close pending] x the real _send_message blocked on a full buffer"""
+    rows = []
+    for pending in (False, True):
+        loop, tr, session, finish = _world(repo, kind)
+        try:
+            async def before():
+                await session._send_message(b'a')       # something unsent in the buffer
+            rows.append(_run_sender(loop, tr, lambda: session._send_message(b'b'),
+                                    before=before if pending else None,
+                                    after_block=tr.close if pending else None))
+        finally:
+            finish()
+    return rows
+
+
+def sender_kinds(repo, kind):
+    """the abort deadline applies to every kind of sender: {kind: aborted exactly at the delay}"""
+    out = {}
+    for name in ('notification', 'request', 'response', 'batch'):
+        loop, tr, session, finish = _world(repo, kind)
+        try:
+            if name == 'notification':
+                mk = lambda: session.send_notification('m', [1])
+            elif name == 'request':
+                mk = lambda: session.send_request('m', [1])
+            elif name == 'batch':
+                async def mk():
+                    async with session.send_batch() as b:
+                        b.add_request('m', [1])
+                        b.add_notification('n')
+            else:
+                async def mk():
+                    # the peer's request arrives; the response is sent by a task of the session
+                    tr.feed(b'{"jsonrpc":"2.0","method":"m","id":1}\n')
+                    await asyncio.sleep(STALL_DELAY * 3)
+            r = _run_sender(loop, tr, mk)
+            out[name] = r['aborts_at'][:1] == [float(STALL_DELAY)] and r['lost_after']
+        finally:
+            finish()
+    return out
 
 
 def abort_table(mod, clsname, kind):
@@ -199,30 +336,6 @@ def abort_table(mod, clsname, kind):
         asyncio.set_event_loop(None)
         loop.close()
     return out
-
-
-def _calls(tree, pred):
-    return [n for n in ast.walk(tree) if isinstance(n, ast.Call) and isinstance(n.func, ast.Attribute)
-            and pred(n.func)]
-
-
-def single_write_path(repo):
-    """call-site facts: in session.py every `<..>.transport.write(..)` call is the one inside
-    SessionBase._send_message (so every sender - responses, requests, notifications - goes through
-    the max_send_delay wrapper); in rawsocket.py / unixsocket.py the only
-    `<..>._asyncio_transport.write(..)` call is the one inside the transport's `write`"""
-    ok = True
-    st = common.parse(repo, 'aiorpcx/session.py')
-    is_tw = lambda f: f.attr == 'write' and isinstance(f.value, ast.Attribute) and f.value.attr == 'transport'
-    inside = common.find(st, 'SessionBase._send_message')
-    ok &= inside is not None and len(_calls(st, is_tw)) == 1 and len(_calls(inside, is_tw)) == 1
-    for rel, cls in (('aiorpcx/rawsocket.py', 'RSTransport'), ('aiorpcx/unixsocket.py', 'USTransport')):
-        t = common.parse(repo, rel)
-        is_aw = lambda f: f.attr == 'write' and isinstance(f.value, ast.Attribute) \
-            and f.value.attr == '_asyncio_transport'
-        w = common.find(t, f'{cls}.write')
-        ok &= w is not None and len(_calls(t, is_aw)) == len(_calls(w, is_aw))
-    return bool(ok)
 
 
 def close_table(mod, clsname, kind):
@@ -258,23 +371,16 @@ def extract(repo):
     us = common.fresh_import(repo, 'aiorpcx.unixsocket')
     sess = common.fresh_import(repo, 'aiorpcx.session')
     kind = sess.SessionKind.SERVER
-    t_rs = table(rs, 'RSTransport', kind)
-    t_us = table(us, 'USTransport', kind)
-    fo_rs, wa_rs = write_atomic(common.parse(repo, 'aiorpcx/rawsocket.py'), 'RSTransport')
-    fo_us, wa_us = write_atomic(common.parse(repo, 'aiorpcx/unixsocket.py'), 'USTransport')
-    wraps, aborts = send_shape(common.parse(repo, 'aiorpcx/session.py'))
     return {
-        'table_rs': t_rs, 'table_us': t_us,
-        'frame_once_rs': fo_rs, 'write_atomic_rs': wa_rs,
-        'frame_once_us': fo_us, 'write_atomic_us': wa_us,
-        'send_wraps_write': wraps, 'send_aborts_unconditionally': aborts,
+        'table_rs': table(rs, 'RSTransport', kind), 'table_us': table(us, 'USTransport', kind),
+        'write_trace_rs': write_traces(rs, 'RSTransport', kind),
+        'write_trace_us': write_traces(us, 'USTransport', kind),
+        'stall_rs': stall_rows(repo, 'rs'), 'stall_us': stall_rows(repo, 'us'),
+        'senders_rs': sender_kinds(repo, 'rs'), 'senders_us': sender_kinds(repo, 'us'),
         'abort_rs': abort_table(rs, 'RSTransport', kind),
         'abort_us': abort_table(us, 'USTransport', kind),
-        'single_write_path': single_write_path(repo),
         'close_rs': close_table(rs, 'RSTransport', kind),
         'close_us': close_table(us, 'USTransport', kind),
-        'write_loops_rs': write_shape(common.parse(repo, 'aiorpcx/rawsocket.py'), 'RSTransport'),
-        'write_loops_us': write_shape(common.parse(repo, 'aiorpcx/unixsocket.py'), 'USTransport'),
         'max_send_delay': float(sess.SessionBase.max_send_delay),
         'fingerprints': common.fingerprints(repo, {
             'aiorpcx/rawsocket.py': ['RSTransport.pause_writing', 'RSTransport.resume_writing',
@@ -302,6 +408,27 @@ def _rows(tab):
     return '[\n  ' + ',\n  '.join(out) + ']'
 
 
+_WCALL = {'frame': '.frame', 'write_framed': '.writeFramed', 'write_other': '.writeOther',
+          'pause_reading': '.pauseReading', 'resume_reading': '.resumeReading'}
+
+
+def _traces(tr):
+    out = []
+    for name, _ops in SCENARIOS:
+        steps = ', '.join('([' + ', '.join(_WCALL.get(c, '.other') for c in calls) + '], '
+                          + str(bool(fin)).lower() + ')' for calls, fin in tr[name])
+        out.append('[' + steps + ']')
+    return '[\n  ' + ',\n  '.join(out) + ']'
+
+
+def _stall(rows):
+    b = lambda x: str(bool(x)).lower()
+    return '[\n  ' + ',\n  '.join(
+        f'⟨{b(r["blocked"])}, {b(r["closing_before"])}, {b(r["lost_before"])}, '
+        f'{b(len(r["aborts_at"]) == 1)}, {b(r["aborts_at"][:1] == [float(STALL_DELAY)])}, '
+        f'{b(r["outcome"] == "TaskTimeout")}, {b(r["lost_after"])}⟩' for r in rows) + ']'
+
+
 def render(f):
     b = lambda x: str(bool(x)).lower()
     md = f['max_send_delay']
@@ -315,27 +442,26 @@ def render(f):
         'structure Row where\n  closing : Bool\n  canSend : Bool\n  pCan : Bool\n  pCalled : Bool\n  pNone : Bool\n  rCan : Bool\n  rCalled : Bool\n  rNone : Bool\n  lCan : Bool\n  lFailed : Bool\n  deriving DecidableEq, Repr\n'
         f'def tableRS : List Row := {_rows(f["table_rs"])}\n'
         f'def tableUS : List Row := {_rows(f["table_us"])}\n'
-        '/-- `write()` waits for `_can_send` inside an awaiting `while` loop -/\n'
-        f'def writeLoopsRS : Bool := {b(f["write_loops_rs"])}\n'
-        f'def writeLoopsUS : Bool := {b(f["write_loops_us"])}\n'
-        '/-- `write()` calls `frame(..)` exactly once, outside any loop -/\n'
-        f'def frameOnceRS : Bool := {b(f["frame_once_rs"])}\n'
-        f'def frameOnceUS : Bool := {b(f["frame_once_us"])}\n'
-        '/-- `write()` hands the frame to the asyncio transport in exactly one call, outside any\n'
-        '    loop, with every suspension point of the function before that call -/\n'
-        f'def writeAtomicRS : Bool := {b(f["write_atomic_rs"])}\n'
-        f'def writeAtomicUS : Bool := {b(f["write_atomic_us"])}\n'
-        '/-- `_send_message`: the write is awaited under `timeout_after(self.max_send_delay)` -/\n'
-        f'def sendWrapsWrite : Bool := {b(f["send_wraps_write"])}\n'
-        '/-- `_send_message`: `except TaskTimeout:` awaits `self.abort()` at the top level of the\n'
-        '    handler (under no condition) and re-raises -/\n'
-        f'def sendAbortsUnconditionally : Bool := {b(f["send_aborts_unconditionally"])}\n'
+        '/-- what can happen in one step of a writer (between two suspension points) -/\n'
+        'inductive WCall where\n  | frame\n  | writeFramed\n  | writeOther\n  | pauseReading\n  | resumeReading\n  | other\n  deriving DecidableEq, Repr\n'
+        '/-- the real `write()` coroutine driven step by step on recording stubs; one entry per\n'
+        '    scenario (' + ', '.join(n for n, _ in SCENARIOS) + '),\n'
+        '    each a list of steps = (calls made in that step, did the coroutine finish) -/\n'
+        f'def writeTraceRS : List (List (List WCall × Bool)) := {_traces(f["write_trace_rs"])}\n'
+        f'def writeTraceUS : List (List (List WCall × Bool)) := {_traces(f["write_trace_us"])}\n'
+        '/-- the real `_send_message` blocked on a full buffer, max_send_delay = D: was it blocked,\n'
+        '    is_closing() / connection_lost delivered at that moment, was the asyncio transport\n'
+        '    aborted (once), at exactly D, did the sender end with TaskTimeout, was the loss\n'
+        '    delivered afterwards.  Rows: connection up; graceful close pending on unsent data -/\n'
+        'structure StallRow where\n  blocked : Bool\n  closingBefore : Bool\n  lostBefore : Bool\n  abortedOnce : Bool\n  atDeadline : Bool\n  taskTimeout : Bool\n  lostAfter : Bool\n  deriving DecidableEq, Repr\n'
+        f'def stallRS : List StallRow := {_stall(f["stall_rs"])}\n'
+        f'def stallUS : List StallRow := {_stall(f["stall_us"])}\n'
+        '/-- a blocked notification / request / response / batch each gets the connection aborted\n'
+        '    at exactly max_send_delay (both transports) -/\n'
+        f'def sendersBounded : List Bool := [{", ".join(b(f["senders_rs"][k] and f["senders_us"][k]) for k in ("notification", "request", "response", "batch"))}]\n'
         '/-- `await transport.abort()` calls exactly `abort()` on the asyncio transport, whether\n'
         '    or not it is already closing (both transports) -/\n'
         f'def abortAborts : Bool := {b(f["abort_rs"] == [["abort"], ["abort"]] and f["abort_us"] == [["abort"], ["abort"]])}\n'
-        '/-- session.py writes to the transport only inside `_send_message`; the transports write\n'
-        '    to the asyncio transport only inside their `write` -/\n'
-        f'def singleWritePath : Bool := {b(f["single_write_path"])}\n'
         '/-- `await transport.close(force_after)` first calls exactly `close()` on the asyncio\n'
         '    transport (both transports, closing or not) -/\n'
         f'def closeCloses : Bool := {b(all(c[0] == [["close"], ["close"]] for c in (f["close_rs"], f["close_us"])))}\n'
